@@ -306,7 +306,7 @@ METHOD_DECOS = [
 @st.composite
 def class_chunk(draw: Any, name: str, ind: str = "", depth: int = 0) -> list[str]:
     lines = []
-    for d in draw(st.sampled_from([[], [], [], ["dataclass"], ["dataclass(frozen=True)"], ["typing.final"], ["deco_args(2)"], ["functools.total_ordering"]])):
+    for d in draw(st.sampled_from([[], [], [], ["dataclass"], ["dataclass(frozen=True)"], ["dataclass(order=True)"], ["typing.final"], ["deco_args(2)"], ["functools.total_ordering"]])):
         lines.append(f"{ind}@{d}")
     bases = draw(st.sampled_from(CLASS_BASES))
     lines.append(f"{ind}class {name}" + (f"({bases})" if bases else "") + ":")
@@ -380,6 +380,8 @@ SPECIAL_CHUNKS: list[tuple[str, list[str]]] = [
     ("class {n}(Exception):\n    def __init__(self, msg: str) -> None:\n        super().__init__(msg)\n        self.msg = msg\n", ["exception"]),
     ("def {n}(a, b):\n    def inner(c):\n        return a + c\n    return inner\n", ["closure"]),
     ("def {n}(a: int) -> int:\n    return a\n\n{n}.attribute = 1\n", ["function_attribute"]),
+    ("TSelf_{n} = TypeVar(\"TSelf_{n}\")\n\n\nclass {n}:\n    def set(self: TSelf_{n}, x: int):\n        return self\n\n    def get(self: TSelf_{n}) -> TSelf_{n}:\n        return self\n", ["self_typevar"]),
+    ("@dataclass(order=True)\nclass {n}:\n    \"\"\"Ordered.\"\"\"\n\n    x: int = 0\n    y: str = 'a'\n", ["dataclass_order"]),
     ("@dataclass\nclass {n}:\n    x: int\n    y: list[int] = dataclasses.field(default_factory=list)\n    z: ClassVar[int] = 0\n\n    def __post_init__(self) -> None:\n        self.w = self.x\n", ["dataclass"]),
     ("class {n}:\n    class Meta:\n        ordering = ['x']\n\n    def __init__(self):\n        class InInit:\n            pass\n        self.k = InInit()\n", ["nested_in_init"]),
     ("class {n}(Plain):\n    attr_p = 2\n    attr_p: int\n", ["attr_redefinition"]),
